@@ -34,6 +34,8 @@ class Library:
     def type_deps(self, ct):
         if ct.startswith('pair_'):
             return [x.rstrip(' *') for x in self.ty.pair_elems[ct]]
+        if ct.startswith('tuple_'):
+            return [x.rstrip(' *') for x in self.ty.tuple_elems[ct]]
         return []
 
     def type_def(self, ct):
@@ -55,7 +57,8 @@ class Library:
             a, b = self.ty.pair_elems[ct]
             return ['typedef struct %s { %s first; %s second; } %s;' % (ct, a, b, ct)]
         if ct.startswith('tuple_'):
-            raise_unsupported('tuple type %s needs a spec-level definition' % ct)
+            es = self.ty.tuple_elems[ct]
+            return ['typedef struct %s { %s } %s;' % (ct, ' '.join('%s e%d;' % (e, i) for i, e in enumerate(es)), ct)]
         if ty.kinds.get(ct) == 'handle':
             return ['typedef hnd_t %s;' % ct]
         if ty.kinds.get(ct) == 'value':
@@ -81,6 +84,8 @@ class Library:
                 f.update(self.vecit(n, ct, e))
             elif ct.startswith('vecrit_'):
                 f.update(self.vecrit(n, ct, e))
+            elif ct.startswith('tuple_'):
+                f.update(self.tuple(n, ct))
             elif ct.startswith('uptr_'):
                 f.update(self.uptr(n, ct, e))
             elif ct.startswith('mapit_'):
@@ -130,6 +135,30 @@ class Library:
         for n in names:
             place(n)
         return ordered
+
+    # -- tuple<T...>: C++20 comparison = lexicographic synthesized three-way; an unordered element pair
+    #    (a NaN) makes every relational operator false and stops the scan
+    def tuple(self, n, ct):
+        f = {}
+        es = self.ty.tuple_elems[ct]
+        args = ', '.join('%s a%d' % (e, i) for i, e in enumerate(es))
+        sets = ' '.join('t.e%d = a%d;' % (i, i) for i in range(len(es)))
+        f['ext__make_tuple__%s__%s' % (n, '_'.join(S(e) for e in es))] = \
+            'static inline %s ext__make_tuple__%s__%s(%s) { %s t; %s return t; }' % (ct, n, '_'.join(S(e) for e in es), args, ct, sets)
+
+        def cmp3(res_gt, res_lt, res_eq):
+            body = ''
+            for i, e in enumerate(es):
+                if e in ('float', 'double'):
+                    body += ' if (a.e%d != a.e%d || b.e%d != b.e%d) return 0;' % (i, i, i, i)
+                body += ' if (a.e%d > b.e%d) return %s; if (a.e%d < b.e%d) return %s;' % (i, i, res_gt, i, i, res_lt)
+            return body + ' return %s;' % res_eq
+        for op, (g, l, q) in {'op_gt': ('1', '0', '0'), 'op_lt': ('0', '1', '0'), 'op_ge': ('1', '0', '1'),
+                              'op_le': ('0', '1', '1'), 'op_eq': ('0', '0', '1')}.items():
+            f['%s__%s' % (n, op)] = 'static inline _Bool %s__%s(%s a, %s b) {%s }' % (n, op, ct, ct, cmp3(g, l, q))
+        for i, e in enumerate(es):
+            f['ext__get_%d__%s' % (i, n)] = 'static inline %s ext__get_%d__%s(%s t) { return t.e%d; }' % (e, i, n, ct, i)
+        return f
 
     # -- optional<T>
     def opt(self, n, ct, e, ek):
@@ -207,6 +236,7 @@ class Library:
     def vec(self, n, ct, e):
         it = n.replace('vec_', 'vecit_', 1).replace('deq_', 'deqit_', 1)
         f = {}
+        f[n + '__copy'] = 'static inline %s %s__copy(%s v) { return v; }' % (ct, n, ct)
         f[n + '__elem'] = ('static inline %s %s__elem(uint64_t vid, uint64_t i) { %s x; return x; }   /* abstract content: any value */' % (e, n, e))
         f[n + '__ctor0'] = 'static inline %s %s__ctor0(void) { %s v; v.n = 0; return v; }' % (ct, n, ct)
         f[n + '__size'] = 'static inline uint64_t %s__size(%s v) { return v.n; }' % (n, ct)
